@@ -236,23 +236,54 @@ Qed.
 (* ---------------------------------------------------------------- (6) generic impl blocks: the run-time type context *)
 
 (* Stack discipline of the method-call path (call_impl.cpp: push_type_context(impl_def->get_type_context()) before the
-   body, the TypeContextGuard pops on every exit - repair 70336ad).  For EVERY program of impl blocks, every stack the call
-   starts from, every registry of instances, every body and every depth of nesting (fuel): what the body observes
-   under the stack equals what it observes when each method body is given, once and for all, the context of the
-   instance it belongs to (run_mono: a callee of another instantiation of the SAME block gets its own map, not the
-   caller's); the registry and the outcome agree; and the stack is exactly the stack it started from after ANY
-   outcome - normal end, early return, run-time error (caught by a `try` of some caller or not), exhausted fuel. *)
-Theorem impl_context_stack_discipline : forall fuel P st ic env n b,
-  r_out (run fuel P st ic env n b) = q_out (run_mono fuel P (get_current_type_context st) ic env n b) /\
-  r_cache (run fuel P st ic env n b) = q_cache (run_mono fuel P (get_current_type_context st) ic env n b) /\
-  r_flag (run fuel P st ic env n b) = q_flag (run_mono fuel P (get_current_type_context st) ic env n b) /\
-  r_stack (run fuel P st ic env n b) = st.
+   body; the manual pops at the normal end / at the head of the ReturnException handler and the TypeContextGuard pop on
+   every exit - repair 70336ad; the method's scope, with its pending defers, is left after that pop).  For EVERY program
+   of impl blocks - deferred statements, void methods, nested returns and run-time errors included -, every stack the
+   call starts from, every registry of instances, every body and every depth of nesting (fuel): what the body
+   observes under the stack equals what it observes when each method body is given, once and for all, the context of
+   the instance it belongs to (run_mono: a callee of another instantiation of the SAME block gets its own map, not the
+   caller's), the statements keeping the order in which the code runs them (late = true: a deferred statement still
+   pending when its body is left is observed by the caller's frame); the registry, the outcome and the pending defers
+   agree; and the stack is exactly the stack it started from after ANY outcome - normal end, early return, run-time
+   error (caught by a `try` of some caller or not), exhausted fuel. *)
+Theorem impl_context_stack_discipline : forall fuel P st ic env n dfs b,
+  r_out (run fuel P st ic env n dfs b) = q_out (run_mono true fuel P (get_current_type_context st) ic env n dfs b) /\
+  r_cache (run fuel P st ic env n dfs b) = q_cache (run_mono true fuel P (get_current_type_context st) ic env n dfs b) /\
+  r_flag (run fuel P st ic env n dfs b) = q_flag (run_mono true fuel P (get_current_type_context st) ic env n dfs b) /\
+  r_pend (run fuel P st ic env n dfs b) = q_pend (run_mono true fuel P (get_current_type_context st) ic env n dfs b) /\
+  r_stack (run fuel P st ic env n dfs b) = st.
 Proof. exact run_refines_mono_l. Qed.
 Print Assumptions impl_context_stack_discipline.
 
+(* The property itself for impl blocks - a generic method behaves like its hand-specialised copy (run_mono false: every
+   statement of a body, deferred or not, observes the context of the body's own instance) - for every program in which
+   a defer is followed by plain statements only, so that the closing top-level return runs it (defers_early; calls,
+   nested returns, errors, void methods are free everywhere else).  _partial: without that hypothesis the code violates
+   it, see deferred_statement_context_refuted. *)
+Theorem impl_methods_equal_hand_copy_partial : forall fuel P st ic env n b,
+  prog_defers_early P = true -> defers_early b = true ->
+  r_out (run fuel P st ic env n [] b) = q_out (run_mono false fuel P (get_current_type_context st) ic env n [] b) /\
+  r_cache (run fuel P st ic env n [] b) = q_cache (run_mono false fuel P (get_current_type_context st) ic env n [] b) /\
+  r_flag (run fuel P st ic env n [] b) = q_flag (run_mono false fuel P (get_current_type_context st) ic env n [] b) /\
+  r_stack (run fuel P st ic env n [] b) = st.
+Proof. exact run_refines_hand_copy_l. Qed.
+Print Assumptions impl_methods_equal_hand_copy_partial.
+
+(* known finding C11-impl-defer-after-context-pop: `defer println(sizeof(T));` in a method of Cell<long> that returns from
+   inside an `if` block, called by a method of Cell<short>, observes short (hand-specialised copy: long); in a void method
+   called from main it observes the unresolved name T (copy: long) *)
+Theorem deferred_statement_context_refuted :
+  r_out (run_main 20 [w_cell5] [] (S "Cell<short>") (S "outer") 3) = [S "short"; S "short"] /\
+  q_out (run_main_mono 20 [w_cell5] [] (S "Cell<short>") (S "outer") 3) = [S "long"; S "short"] /\
+  r_out (run_main 20 [w_cell5] [] (S "Cell<long>") (S "void") 3) = [S "long"; S "T"] /\
+  q_out (run_main_mono 20 [w_cell5] [] (S "Cell<long>") (S "void") 3) = [S "long"; S "long"] /\
+  prog_defers_early [w_cell5] = false.
+Proof. exact deferred_statement_context_refuted_l. Qed.
+Print Assumptions deferred_statement_context_refuted.
+
 (* replaces error_leaves_context_refuted (finding C11-try-leaks-type-context, repaired by 70336ad) *)
-Theorem impl_context_restored_after_any_outcome : forall fuel P st ic env n b,
-  r_stack (run fuel P st ic env n b) = st.
+Theorem impl_context_restored_after_any_outcome : forall fuel P st ic env n dfs b,
+  r_stack (run fuel P st ic env n dfs b) = st.
 Proof. exact stack_restored_l. Qed.
 Print Assumptions impl_context_restored_after_any_outcome.
 
@@ -332,6 +363,12 @@ Example try_example :
   r_out (run_main 20 [w_cell2] [] (S "Cell<int>") (S "tr") 3) = [S "int"; S "long"; S "int"] /\
   r_flag (run_main 20 [w_cell2] [] (S "Cell<int>") (S "tr") 3) = FNorm.
 Proof. exact try_example_l. Qed.
+
+(* the hypothesis of impl_methods_equal_hand_copy_partial is satisfiable by a program that defers *)
+Example defer_top_level_example :
+  prog_defers_early [w_cell6] = true /\
+  r_out (run_main 20 [w_cell6] [] (S "Cell<short>") (S "outer") 3) = [S "long"; S "long"; S "short"].
+Proof. exact defer_top_level_example_l. Qed.
 
 Example cross_instantiation_example :
   r_out (run_main 20 [w_cell3] [] (S "Cell<int>") (S "cross") 3) = [S "int"; S "long"; S "int"; S "int"] /\
